@@ -10,3 +10,13 @@ func VerifSetCorrelationID(b *Broker, id int32) {
 	b.correlationID = id
 	b.lock.Unlock()
 }
+
+// VerifEncode encodes a request/response body with sarama's own encoder (the C14 server builds response bodies
+// with byte fields - Fetch, JoinGroup, SyncGroup, DescribeGroups - from the exported response types).
+func VerifEncode(v interface{}) ([]byte, error) {
+	e, ok := v.(encoder)
+	if !ok {
+		return nil, PacketEncodingError{"not an encoder"}
+	}
+	return encode(e, nil)
+}
